@@ -38,6 +38,7 @@ class BuildDirector(SectionLineParser):
         self.build_options = defaultdict(list)
         self.current_molname = None
         self.rw_options = {}
+        self.rw_restrictions = defaultdict(list)
         self.persistence_length = {}
         self.templates = {}
         self.current_template = None
@@ -94,6 +95,8 @@ class BuildDirector(SectionLineParser):
 
         for idx in self.current_molidxs:
             self.rw_options[(self.current_molname, idx)] = geometry_def
+            # a molecule can have several restrictions (e.g. per residue range)
+            self.rw_restrictions[(self.current_molname, idx)].append(geometry_def)
 
     @SectionLineParser.section_parser('molecule', 'distance_restraints')
     def _distance_restraints(self, line, lineno=0):
@@ -226,10 +229,9 @@ class BuildDirector(SectionLineParser):
                 for option in self.build_options[(molecule.mol_name, mol_idx)]:
                     self._tag_nodes(molecule, "restraints", option, molecule.mol_name)
 
-            if (molecule.mol_name, mol_idx)  in self.rw_options:
-                self._tag_nodes(molecule, "rw_options",
-                                self.rw_options[(molecule.mol_name, mol_idx)],
-                                molecule.mol_name)
+            if (molecule.mol_name, mol_idx)  in self.rw_restrictions:
+                for option in self.rw_restrictions[(molecule.mol_name, mol_idx)]:
+                    self._tag_nodes(molecule, "rw_options", option, molecule.mol_name)
 
         super().finalize(lineno=lineno)
 
